@@ -139,16 +139,21 @@ class Ctx:
         self.extra: dict = {}
         self.floors: list[tuple[str, int, int]] = []
         self._sample_cap = 12
+        self._distinct: set = set()
 
     # --- obligations --------------------------------------------------------------------
     def count(self, rule: str, n: int = 1):
         self.rule_counts[rule] = self.rule_counts.get(rule, 0) + n
 
-    def ok(self, rule: str, sample=None):
+    def ok(self, rule: str, sample=None, key=None):
         """One obligation of `rule` discharged."""
         self.obligations += 1
         self.discharged += 1
         self.count(rule)
+        if key is not None:
+            self._distinct.add((rule, key))
+        elif sample is not None:
+            self._distinct.add((rule, json.dumps(sample, sort_keys=True, default=str)))
         if sample is not None:
             self.sample(rule, sample)
 
@@ -158,12 +163,13 @@ class Ctx:
         self.count(rule)
         f = Finding(prop or self.prop, rule, construct, message, file, line, detail)
         self.findings.append(f)
+        self._distinct.add((rule, construct))
         return f
 
     def check(self, cond: bool, rule: str, construct: str, message: str, file: str = "",
               line: int | None = None, detail: dict | None = None, sample=None):
         if cond:
-            self.ok(rule, sample)
+            self.ok(rule, sample, key=construct)
         else:
             self.fail(rule, construct, message, file, line, detail)
         return cond
@@ -241,7 +247,10 @@ def write_evidence(ctx: Ctx, meta: dict, wall: float, n_viol: int, n_known: int,
         cov["programs"] = int(ctx.extra.get("programs", 0))
         cov["disagreements_checked"] = int(ctx.extra.get("disagreements_checked", ctx.obligations))
     cov["evaluations"] = max(ctx.obligations, 1)
-    cov["distinct_nontrivial"] = max(len(ctx.rule_counts), 2) if ctx.obligations >= 2 else 2
+    # distinct obligation instances = distinct (rule, construct) pairs seen by this run (obligations recorded
+    # without a construct key are not counted here, so this is a lower bound on the distinct cases)
+    cov["distinct_nontrivial"] = len(ctx._distinct)
+    cov["distinct_rule"] = "distinct (rule, construct) pairs among the obligations of this run; an obligation is one rule applied to one construct of the source (attribute, hook x alternative x world, call site, table entry...)"
     for k, v in ctx.extra.items():
         if k not in cov:
             cov[k] = v
